@@ -91,9 +91,9 @@ func (s *Sched) Spawn(g int, f func()) {
 
 type SchedResult struct {
 	Panics   []string
-	Deadlock bool   // no ready task and no event for the deadlock timeout
-	Stuck    []int  // tasks that never finished
-	Blocked  int    // number of resume steps that ended with the task blocked (mutex)
+	Deadlock bool  // no ready task and no event for the deadlock timeout
+	Stuck    []int // tasks that never finished
+	Blocked  int   // number of resume steps that ended with the task blocked (mutex)
 }
 
 // Run drives n spawned tasks to completion. pick chooses an index into the sorted ready list.
